@@ -76,6 +76,23 @@ def c08_suffix(ki: int, d: int, si: int, lower: bool) -> bool:
     return len(r) == 1 and RC.matches(r[0], root, RC.FORMULAS[suf]) and r[0] == chords.from_shorthand(root + suf)
 
 
+def c08_prefix_suffix(pre: str, ki: int, d: int, si: int) -> bool:
+    """an accidental prefix in front of a numeral that also carries a chord suffix"""
+    key = pick(P["keys"], ki)
+    d = enum(d, 0, 7)
+    suf = pick(P["suffixes"], si)
+    root = _stack(key, d, 1)[0]
+    base = chords.from_shorthand(root + suf)
+    r = progressions.to_chords(pre + NUM_UP[d] + suf, key)
+    if len(r) != 1 or len(r[0]) != len(base):
+        return False
+    shift = net("x" + pre)
+    for got, b in zip(r[0], base):
+        if got[0] != b[0] or pc(got) != (pc(b) + shift) % 12:
+            return False
+    return True
+
+
 def c08_unrecognised(s: str) -> bool:
     assume("#" not in s and "b" not in s)
     roman = ""
@@ -235,6 +252,12 @@ def claims(tier):
         for lo in range(0, len(SUFFIXES), step):
             sfx = SUFFIXES[lo : lo + step]
             cl.append(Claim("suffix[keys%d,%d-%d]" % (n, lo, lo + len(sfx) - 1), c08_suffix, params={"keys": ks, "suffixes": sfx}, pre=[lambda ki, d, si: 0 <= ki < len(P["keys"]) and 0 <= d < 7 and 0 <= si < len(P["suffixes"])], timeout=900 if q else 3000, bounds="keys %r x 7 degrees x suffixes %r x numeral case" % (ks, sfx)))
+    psuf = ["m7", "dim7", "M7"] if q else SUFFIXES
+    pkeys = ["f#"] if q else ["C", "f#", "Ab", "e", "B"]
+    for pk in pkeys:
+        for lo in range(0, len(psuf), 4):
+            sub_ = psuf[lo : lo + 4]
+            cl.append(Claim("prefix_suffix[%s,%d-%d]" % (pk, lo, lo + len(sub_) - 1), c08_prefix_suffix, params={"keys": [pk], "suffixes": sub_}, group="c08_prefix_suffix", pre=[lambda pre, ki, d, si: spelled("C" + pre, 2) and ki == 0 and 0 <= d < 7 and 0 <= si < len(P["suffixes"])], timeout=900 if q else 3000, bounds="key %s: prefix = every string over {#,b} of length <= 2 (symbolic) in front of numeral + suffix %r; 7 degrees" % (pk, sub_)))
     cl.append(Claim("unrecognised", c08_unrecognised, pre=[lambda s: 1 <= len(s) <= (3 if q else 4)], timeout=900 if q else 3000, bounds="every unicode string of length 1..%d without '#'/'b' whose leading I/V run is not a numeral" % (3 if q else 4)))
     nsfx = 12 if q else len(SUFFIXES) + 2
     for d0 in range(7):
